@@ -7,10 +7,10 @@ EVIDENCE = {
     "functions": ["base.Tensor.__apply__", "TransformationTensor.__apply__/apply/__mul__/__pow__/inverse", "base.Tensor.__pow__", "transformation.identity",
                   "shapes.SegmentTensor.__apply__", "shapes.PolygonTensor.__apply__", "utils.math.inv (np.linalg.inv branch: exact stub)",
                   "point.join/meet", "SubspaceTensor.contains", "QuadricTensor.contains/is_tangent/dual", "operators.crossratio"],
-    "bounds": "dimension 2 (general 3x3 matrices) and 3 (general 4x4 for points/hyperplanes/lines, affine 4x4 for the heavier kinds in quick; general in thorough); "
+    "bounds": "dimension 2 (general 3x3 matrices) and 3 (general 4x4 for points/hyperplanes/lines, affine 4x4 for the heavier kinds; general 4x4 for those kinds: built, tier attempt, undecided, not claimed); "
               "object kinds: point, hyperplane, 3-D line (both tensor forms), quadric, dual quadric, segment, triangle, 4-gon (3-D: 4th vertex parametrised in the plane), "
               "collections of length 2; exponents |k| <= 3; all entries free reals with det != 0 assumed",
-    "outside": "collections longer than 2, polygons with more than 4 vertices, polyhedra (thorough only), |k| > 3, rounding; 'every sequence' follows from the one-step laws by induction",
+    "outside": "collections longer than 2, polygons with more than 4 vertices, polyhedra, |k| > 3, rounding; 'every sequence' follows from the one-step laws by induction",
     "assumptions": ["np.linalg.inv: exact inverse, LinAlgError iff singular (stub)"],
 }
 
